@@ -784,21 +784,6 @@ static int do_wait(struct waitreq *rq, int ms_granular)
 	w.ms_granular = ms_granular;
 	vt_stats.waits++;
 
-	/* faults: the specific primitive first (ENOSYS/EPERM fallbacks), then the generic "wait" (EINTR) */
-	e = fault_check(kname);
-	if (!e)
-		e = fault_check("wait");
-	if (e) {
-		w.v_enter = V;
-		w.deadline = VT_INF;
-		w.injected = 1;
-		w.ret = -1;
-		w.err = e;
-		hk_wait_return(&w);
-		errno = e;
-		return -1;
-	}
-
 	/* a virtual timerfd whose expiry was overtaken by burnt time fires now */
 	fd = t->tfd;
 	if (fd >= 0 && vtfd[fd].used && vtfd[fd].armed && vtfd[fd].expiry <= V) {
@@ -813,6 +798,21 @@ static int do_wait(struct waitreq *rq, int ms_granular)
 		w.deadline = vtfd[fd].expiry;
 	if (fd >= 0 && vtfd[fd].used && vtfd[fd].fired && w.deadline > V)
 		w.deadline = V;		/* an expiry is waiting to be read: the wait returns at once */
+
+	/* faults: the specific primitive first (ENOSYS/EPERM fallbacks), then the generic "wait" (EINTR) */
+	e = fault_check(kname);
+	if (!e)
+		e = fault_check("wait");
+	if (e) {
+		/* the call is an entry to the kernel wait like any other; it just fails at once */
+		w.injected = 1;
+		hk_wait_enter(&w);
+		w.ret = -1;
+		w.err = e;
+		hk_wait_return(&w);
+		errno = e;
+		return -1;
+	}
 
 	hk_wait_enter(&w);
 	perturb();
@@ -1012,7 +1012,7 @@ int __wrap_epoll_ctl(int epfd, int op, int fd, struct epoll_event *ev)
 {
 	int r, e;
 
-	if (op == EPOLL_CTL_ADD && ev != NULL && ev->events == 0 && fd >= 0 && fd < MAXFD && libfd[fd]) {
+	if (op == EPOLL_CTL_ADD && ev != NULL && (ev->events & ~(uint32_t)EPOLLONESHOT) == 0 && fd >= 0 && fd < MAXFD && libfd[fd]) {
 		int inj = fault_check("kick_add");
 		if (inj) { errno = inj; return -1; }
 	}
